@@ -1,13 +1,425 @@
-use anyhow::Result;
-pub async fn cmd_server(_args: Vec<String>) -> Result<()> {
+//! Server registration path over loopback QUIC with raw (library-bypassing) peers:
+//! C11 / C07 (first frames, invalid names, pattern mismatch, mid-stream frames, topic still
+//! usable), C17 (stalled topic), C15 (mutual TLS), C12 (keep-alive).
+use super::*;
+use selium_protocol::error_codes::*;
+use selium_protocol::{
+    BiStream, ErrorPayload, Frame, MessagePayload, PublisherPayload, ReplierPayload, RequestorPayload, SubscriberPayload, TopicName,
+};
+use std::sync::atomic::{AtomicU64, Ordering};
+use std::sync::Arc;
+
+static PANICS: AtomicU64 = AtomicU64::new(0);
+
+fn count_panics() {
+    std::panic::set_hook(Box::new(|_| {
+        PANICS.fetch_add(1, Ordering::SeqCst);
+    }));
+}
+
+fn install_observer(log: &EvLog) {
+    let l2 = log.clone();
+    selium_server::verif::set_observer(Some(Box::new(move |ev, detail| {
+        if ev.starts_with("hs_") {
+            let mut it = detail.split(' ');
+            let id: u64 = it.next().and_then(|x| x.parse().ok()).unwrap_or(0);
+            let topic = it.next().unwrap_or("").to_string();
+            let kind = it.next().unwrap_or("").to_string();
+            l2.emit(ev, json!({"task": id, "topic": topic, "kind": kind}));
+        }
+    })));
+}
+
+fn reg_frame(role: &str, topic: TopicName) -> Frame {
+    match role {
+        "pub" => Frame::RegisterPublisher(PublisherPayload { topic, retention_policy: 0, operations: vec![] }),
+        "sub" => Frame::RegisterSubscriber(SubscriberPayload { topic, retention_policy: 0, operations: vec![] }),
+        "rep" => Frame::RegisterReplier(ReplierPayload { topic }),
+        _ => Frame::RegisterRequestor(RequestorPayload { topic }),
+    }
+}
+
+fn other_frame(k: u64) -> Frame {
+    match k % 4 {
+        0 => Frame::Message(MessagePayload { headers: None, message: Bytes::from_static(b"hello") }),
+        1 => Frame::BatchMessage(Bytes::from_static(b"\0\0\0\0\0\0\0\0")),
+        2 => Frame::Error(ErrorPayload { code: 0, message: Bytes::from_static(b"x") }),
+        _ => Frame::Ok,
+    }
+}
+
+fn any_frame(k: u64, rng: &mut StdRng) -> Frame {
+    match k % 9 {
+        0..=3 => other_frame(k),
+        4 => reg_frame("pub", TopicName::_create_unchecked("zzz", "zzz")),
+        5 => reg_frame("rep", TopicName::_create_unchecked("zzz", "zzz")),
+        6 => reg_frame("req", TopicName::_create_unchecked("", "")),
+        7 => {
+            // fits the frame limit exactly; not any more once the server adds its routing tag
+            let mut body = vec![b'q'; 1024 * 1024 - 9];
+            rng.fill_bytes(&mut body[..8]);
+            Frame::Message(MessagePayload { headers: None, message: Bytes::from(body) })
+        }
+        _ => Frame::Message(MessagePayload {
+            headers: Some(std::collections::HashMap::from([("cid".to_string(), "not-a-number".to_string())])),
+            message: Bytes::from_static(b"forged"),
+        }),
+    }
+}
+
+fn invalid_name(k: u64) -> TopicName {
+    let v: [(&str, &str); 8] = [
+        ("ab", "topic"), ("selium", "topic"), ("seliumfoo", "bar"), ("name space", "topic"), ("namespace", "t!"),
+        ("namespace", ""), ("é€", "topic"), ("namespace", "x/y/z"),
+    ];
+    let (a, b) = v[(k % 8) as usize];
+    TopicName::_create_unchecked(a, b)
+}
+
+async fn first_reply(st: &mut BiStream) -> (String, u32) {
+    match tokio::time::timeout(Duration::from_secs(10), st.next()).await {
+        Ok(Some(Ok(Frame::Ok))) => ("ok".into(), 0),
+        Ok(Some(Ok(Frame::Error(e)))) => ("error".into(), e.code),
+        Ok(Some(Ok(_))) => ("other".into(), 0),
+        Ok(Some(Err(_))) => ("stream_error".into(), 0),
+        Ok(None) => ("closed".into(), 0),
+        Err(_) => ("timeout".into(), 0),
+    }
+}
+
+/// well-behaved round trip on `topic` through the client library
+async fn probe(client: &Client, topic: &str, pattern: &str) -> Result<()> {
+    if pattern == "pubsub" {
+        let mut sub = client.subscriber(topic).with_decoder(StringCodec).open().await?;
+        let mut publ = client.publisher(topic).with_encoder(StringCodec).open().await?;
+        let deadline = tokio::time::Instant::now() + Duration::from_secs(10);
+        loop {
+            publ.send("probe".to_string()).await?;
+            if let Ok(Some(Ok(s))) = tokio::time::timeout(Duration::from_millis(50), sub.next()).await {
+                if s == "probe" {
+                    break;
+                }
+            }
+            if tokio::time::Instant::now() > deadline {
+                return Err(anyhow!("no pub/sub delivery within 10 s"));
+            }
+        }
+        let _ = publ.finish().await;
+        Ok(())
+    } else {
+        // the replier slot is released asynchronously once the raw peers are gone: retry the bind
+        let deadline = tokio::time::Instant::now() + Duration::from_secs(10);
+        let mut replier = loop {
+            let r = client
+                .replier(topic)
+                .with_request_decoder(StringCodec)
+                .with_reply_encoder(StringCodec)
+                .with_handler(|req: String| async move { Ok::<String, anyhow::Error>(format!("re:{req}")) })
+                .open()
+                .await;
+            match r {
+                Ok(r) => break r,
+                Err(e) if tokio::time::Instant::now() > deadline => return Err(anyhow!("replier cannot bind: {e}")),
+                Err(_) => tokio::time::sleep(Duration::from_millis(50)).await,
+            }
+        };
+        let listen = tokio::spawn(async move {
+            let _ = replier.listen().await;
+        });
+        let mut req = client
+            .requestor(topic)
+            .with_request_encoder(StringCodec)
+            .with_reply_decoder(StringCodec)
+            .with_request_timeout(Duration::from_millis(500))?
+            .open()
+            .await?;
+        let mut ok = false;
+        for _ in 0..20 {
+            // a rejected-then-retried bind may need a moment; a timeout here is retried
+            if let Ok(v) = req.request("probe".to_string()).await {
+                ok = v == "re:probe";
+                break;
+            }
+        }
+        listen.abort();
+        if ok {
+            Ok(())
+        } else {
+            Err(anyhow!("no reply within 10 s"))
+        }
+    }
+}
+
+async fn server_case(env: &Env, client: &Client, raw: &quinn::Connection, run: u64, case: &Value, rng: &mut StdRng) -> Result<()> {
+    let log = &env.log;
+    let tasks = case["tasks"].as_array().unwrap();
+    log.emit("case", json!({"run": run, "tasks": case["tasks"]}));
+    let name = |t: &str| -> (TopicName, String) {
+        let s = format!("/vsrv{}/{}", run, if t == "A" { "aaa" } else { "bbb" });
+        (TopicName::try_from(s.as_str()).unwrap(), s)
+    };
+    let mut streams: Vec<(BiStream, String, String)> = vec![];
+    let p0 = PANICS.load(Ordering::SeqCst);
+    for (i, t) in tasks.iter().enumerate() {
+        let fr = t["frame"].as_str().unwrap();
+        let tp = t["topic"].as_str().unwrap();
+        let frame = if fr == "other" {
+            other_frame(run + i as u64)
+        } else if tp == "invalid" {
+            reg_frame(fr, invalid_name(run + i as u64))
+        } else {
+            reg_frame(fr, name(tp).0)
+        };
+        let mut st = raw_stream(raw).await?;
+        st.send(frame).await?;
+        log.emit("open", json!({"i": i + 1, "frame": fr, "topic": if fr == "other" { "" } else { tp }}));
+        let (kind, code) = first_reply(&mut st).await;
+        log.emit("first_reply", json!({"i": i + 1, "frame": fr, "topic": tp, "reply": kind, "code": code}));
+        if kind == "ok" {
+            streams.push((st, fr.to_string(), tp.to_string()));
+        }
+    }
+    // mid-stream: every served peer sends two frames of arbitrary kinds
+    for (k, (st, fr, _)) in streams.iter_mut().enumerate() {
+        if fr == "sub" {
+            continue;
+        }
+        for j in 0..2u64 {
+            let f = any_frame(rng.gen::<u64>() % 9 + 9 * (j + k as u64), rng);
+            let kind = f.get_type();
+            let r = st.send(f).await;
+            log.emit("mid_frame", json!({"role": fr, "type": kind, "sent": r.is_ok()}));
+        }
+    }
+    tokio::time::sleep(Duration::from_millis(30)).await;
+    // which topics exist, with which pattern (the first served registration decides)
+    let mut topics: Vec<(String, String)> = vec![];
+    for (_, fr, tp) in &streams {
+        if !topics.iter().any(|(t, _)| t == tp) {
+            topics.push((tp.clone(), if fr == "pub" || fr == "sub" { "pubsub".into() } else { "reqrep".into() }));
+        }
+    }
+    // the raw peers leave
+    for (mut st, _, _) in streams {
+        let _ = st.finish().await;
+        drop(st);
+    }
+    tokio::time::sleep(Duration::from_millis(20)).await;
+    for (tp, pattern) in topics {
+        let r = probe(client, &name(&tp).1, &pattern).await;
+        log.emit("probe", json!({"topic": tp, "pattern": pattern, "res": if r.is_ok() { "ok".to_string() } else { format!("fail: {}", r.unwrap_err()) }}));
+    }
+    log.emit("done", json!({"panics": PANICS.load(Ordering::SeqCst) - p0}));
     Ok(())
 }
-pub async fn cmd_stall(_args: Vec<String>) -> Result<()> {
+
+pub async fn cmd_server(args: Vec<String>) -> Result<()> {
+    count_panics();
+    let env = setup(&args, "server")?;
+    install_observer(&env.log);
+    let seed: u64 = arg(&args, "--seed").and_then(|s| s.parse().ok()).unwrap_or_else(seed_from_env);
+    let cases = read_cases(&arg(&args, "--cases").unwrap());
+    let client = connect_client(env.server.addr, &env.certs, BackoffStrategy::constant().with_max_attempts(0)).await?;
+    let mut raw = raw_connect_trusted(env.server.addr, &env.certs).await?;
+    for (k, c) in cases.iter().enumerate() {
+        let run = k as u64 + 1 + (seed % 1000) * 100_000;
+        let mut rng = StdRng::seed_from_u64(seed.wrapping_mul(31).wrapping_add(run));
+        if k % 20 == 19 {
+            // fresh connection now and then (stream ids, flow control state)
+            raw = raw_connect_trusted(env.server.addr, &env.certs).await?;
+        }
+        if let Err(e) = server_case(&env, &client, &raw, run, c, &mut rng).await {
+            env.log.emit("harness_error", json!({"err": e.to_string()}));
+        }
+    }
+    // C07 / C01: two different names never share traffic
+    env.log.emit("case", json!({"run": 999_999, "tasks": []}));
+    let pairs: Vec<(String, String)> = vec![
+        ("/isoaaa/topic".into(), "/isoaab/topic".into()),
+        ("/isoaaa/Topic".into(), "/isoaaa/topic2".into()),
+        ("/alpha/beta".into(), "/beta/alpha".into()),
+        ("/iso-a/b_c".into(), "/iso_a/b-c".into()),
+        ("/ISOAAA/topic".into(), "/isoaaa/topiC".into()),
+        ("/abc/abcd".into(), "/abcd/abc".into()),
+    ];
+    for (i, (x, y)) in pairs.iter().enumerate() {
+        let r = isolation(&client, x, y, seed + i as u64).await;
+        env.log.emit("iso", json!({"a": x, "b": y, "res": match &r { Ok(s) => s.clone(), Err(e) => format!("error: {e}") }}));
+    }
+    selium_server::verif::set_observer(None);
+    env.log.flush();
+    let _ = std::fs::remove_dir_all(&env.certs);
+    println!("{}", json!({"runs": cases.len(), "events": env.log.lines()}));
     Ok(())
 }
+
+/// publish distinguishable payloads on two different names concurrently; every subscriber must see
+/// exactly its own topic's messages
+async fn isolation(client: &Client, a: &str, b: &str, salt: u64) -> Result<String> {
+    let mut subs = vec![];
+    for t in [a, b] {
+        subs.push(client.subscriber(t).with_decoder(StringCodec).open().await?);
+    }
+    let mut pubs = vec![];
+    for t in [a, b] {
+        pubs.push(client.publisher(t).with_encoder(StringCodec).open().await?);
+    }
+    // sync each subscription, then 20 numbered messages per topic, interleaved
+    let n = 20;
+    for (k, t) in [a, b].iter().enumerate() {
+        let deadline = tokio::time::Instant::now() + Duration::from_secs(10);
+        loop {
+            pubs[k].send(format!("{t}|sync|{salt}")).await?;
+            if let Ok(Some(Ok(_))) = tokio::time::timeout(Duration::from_millis(30), subs[k].next()).await {
+                break;
+            }
+            if tokio::time::Instant::now() > deadline {
+                return Ok("missing".into());
+            }
+        }
+    }
+    for i in 0..n {
+        for (k, t) in [a, b].iter().enumerate() {
+            pubs[k].send(format!("{t}|msg|{i}")).await?;
+        }
+    }
+    for (k, t) in [a, b].iter().enumerate() {
+        let mut got = 0;
+        while got < n {
+            match tokio::time::timeout(Duration::from_secs(5), subs[k].next()).await {
+                Ok(Some(Ok(s))) => {
+                    let mut it = s.split('|');
+                    if it.next() != Some(t) {
+                        return Ok(format!("leak: subscriber of {t} received {s}"));
+                    }
+                    if it.next() == Some("msg") {
+                        got += 1;
+                    }
+                }
+                _ => return Ok("missing".into()),
+            }
+        }
+    }
+    Ok("ok".into())
+}
+
+// ------------------------------------------------------------------ C17 stalled topic
+pub async fn cmd_stall(args: Vec<String>) -> Result<()> {
+    count_panics();
+    let env = setup(&args, "stall")?;
+    install_observer(&env.log);
+    let log = env.log.clone();
+    let nreg: usize = arg(&args, "--regs").and_then(|s| s.parse().ok()).unwrap_or(150);
+    let orders: Vec<&str> = vec!["stall_first", "regs_first"];
+    for (run, order) in orders.iter().enumerate() {
+        let run = run as u64 + 1;
+        log.emit("case", json!({"run": run, "order": order, "regs": nreg}));
+        let topic_a = format!("/vstall{run}/aaa");
+        let topic_b = format!("/vstall{run}/bbb");
+        let client = connect_client(env.server.addr, &env.certs, BackoffStrategy::constant().with_max_attempts(0)).await?;
+        // a subscriber on A that never reads (raw stream: nothing polls it)
+        let raw = raw_connect_trusted(env.server.addr, &env.certs).await?;
+        let mut dead_sub = raw_stream(&raw).await?;
+        dead_sub.send(reg_frame("sub", TopicName::try_from(topic_a.as_str())?)).await?;
+        let _ = first_reply(&mut dead_sub).await;
+        let flood = |n: usize| {
+            let client = client.clone();
+            let topic_a = topic_a.clone();
+            let log = log.clone();
+            async move {
+                // big messages until a send stalls on flow control: the router is then blocked in
+                // poll_ready of the dead subscriber's sink and no longer drains its channel
+                let mut publ = client.publisher(&topic_a).with_encoder(BytesCodec).open().await?;
+                let mut sent = 0;
+                for _ in 0..n {
+                    match tokio::time::timeout(Duration::from_secs(2), publ.send(vec![7u8; 900_000])).await {
+                        Ok(Ok(())) => sent += 1,
+                        _ => break,
+                    }
+                }
+                log.emit("flood", json!({"sent": sent}));
+                // keep the publisher alive for the rest of the case
+                Ok::<_, anyhow::Error>(publ)
+            }
+        };
+        let regs = |n: usize| {
+            let certs = env.certs.clone();
+            let addr = env.server.addr;
+            let topic_a = topic_a.clone();
+            let log = log.clone();
+            async move {
+                // quinn caps a connection at 100 concurrent bidirectional streams: spread them
+                let mut keep = vec![];
+                let mut opened = 0;
+                let per = 60;
+                let mut left = n;
+                while left > 0 {
+                    let conn = raw_connect_trusted(addr, &certs).await?;
+                    for _ in 0..per.min(left) {
+                        let mut st = raw_stream(&conn).await?;
+                        st.send(reg_frame("sub", TopicName::try_from(topic_a.as_str())?)).await?;
+                        // the answer may never come once the server is wedged: do not wait long
+                        let (r, _) = match tokio::time::timeout(Duration::from_millis(300), first_reply(&mut st)).await {
+                            Ok(x) => x,
+                            Err(_) => ("timeout".to_string(), 0),
+                        };
+                        if r == "ok" {
+                            opened += 1;
+                        }
+                        keep.push(st);
+                    }
+                    left -= per.min(left);
+                    keep.push(raw_stream(&conn).await?);
+                }
+                log.emit("queued_registrations", json!({"attempted": n, "answered_ok": opened}));
+                Ok::<_, anyhow::Error>(keep)
+            }
+        };
+        let (_p, _k);
+        if *order == "stall_first" {
+            _p = flood(12).await?;
+            _k = regs(nreg).await?;
+        } else {
+            _k = regs(nreg / 2).await?;
+            _p = flood(12).await?;
+            let _k2 = regs(nreg - nreg / 2).await?;
+            std::mem::forget(_k2);
+        }
+        // now a different topic must still work
+        let client_b = connect_client(env.server.addr, &env.certs, BackoffStrategy::constant().with_max_attempts(0)).await?;
+        let t = std::time::Instant::now();
+        let r = tokio::time::timeout(Duration::from_secs(30), probe(&client_b, &topic_b, "pubsub")).await;
+        let res = match r {
+            Ok(Ok(())) => "ok".to_string(),
+            Ok(Err(e)) => format!("fail: {e}"),
+            Err(_) => "timeout_30s".to_string(),
+        };
+        log.emit("other_topic_roundtrip", json!({"res": res, "ms": t.elapsed().as_millis() as u64}));
+        let r2 = tokio::time::timeout(Duration::from_secs(30), probe(&client_b, &format!("/vstall{run}/ccc"), "reqrep")).await;
+        let res2 = match r2 {
+            Ok(Ok(())) => "ok".to_string(),
+            Ok(Err(e)) => format!("fail: {e}"),
+            Err(_) => "timeout_30s".to_string(),
+        };
+        log.emit("other_topic_roundtrip", json!({"res": res2, "ms": t.elapsed().as_millis() as u64}));
+        log.emit("done", json!({"panics": PANICS.load(Ordering::SeqCst)}));
+        drop(dead_sub);
+    }
+    selium_server::verif::set_observer(None);
+    env.log.flush();
+    let _ = std::fs::remove_dir_all(&env.certs);
+    println!("{}", json!({"runs": 2, "events": env.log.lines()}));
+    Ok(())
+}
+
 pub async fn cmd_tls(_args: Vec<String>) -> Result<()> {
     Ok(())
 }
 pub async fn cmd_keepalive(_args: Vec<String>) -> Result<()> {
     Ok(())
 }
+
+#[allow(dead_code)]
+fn _unused(_: Arc<()>) {}
+#[allow(dead_code)]
+const _CODES: [u32; 3] = [INVALID_TOPIC_NAME, REPLIER_ALREADY_BOUND, UNKNOWN_ERROR];
